@@ -29,6 +29,9 @@ static CORRUPT: AtomicUsize = AtomicUsize::new(0);
 const CANARY: u64 = 0xB16C_A5E0_0000_0000;
 const CAP: usize = 8;
 
+static PANIC_NODE: AtomicUsize = AtomicUsize::new(usize::MAX);
+static PANICKED: AtomicUsize = AtomicUsize::new(0);
+
 pub struct BNode {
     id: u32,
     canary: u64,
@@ -41,6 +44,11 @@ impl Drop for BNode {
         DESTROYED.fetch_add(1, Ordering::Relaxed);
         if self.canary != CANARY ^ self.id as u64 {
             CORRUPT.fetch_add(1, Ordering::Relaxed);
+        }
+        if PANIC_NODE.load(Ordering::Relaxed) == self.id as usize && !std::thread::panicking() {
+            PANIC_NODE.store(usize::MAX, Ordering::Relaxed);
+            PANICKED.fetch_add(1, Ordering::Relaxed);
+            std::panic::panic_any(crate::interp::Injected);
         }
         if self.clone_on_drop.get() {
             let v = self.next.borrow();
@@ -76,6 +84,10 @@ pub struct BigCase {
     /// nodes own their handles in raw form (`Rc::into_raw`)
     #[serde(default)]
     pub nodrop: bool,
+    /// node whose destructor panics once (the group must still be destroyed in
+    /// full, nothing twice)
+    #[serde(default)]
+    pub panic_at: Option<u32>,
 }
 
 pub fn sizes(c: &BigCase, tier: Tier) -> (usize, usize) {
@@ -183,7 +195,8 @@ pub const L_GT4096: u32 = 6;
 pub const L_GT16: u32 = 7;
 pub const L_TAIL_GT1000: u32 = 8;
 pub const L_NODROP: u32 = 9;
-pub const NAMES: [&str; 10] = ["adopted_tail", "outside_handles_kept", "outside_weaks", "destructor_clones_peer", "doubly_linked", "group>128", "group>4096", "group>16", "tail>1000", "payload_without_drop_glue"];
+pub const L_PANIC: u32 = 10;
+pub const NAMES: [&str; 11] = ["adopted_tail", "outside_handles_kept", "outside_weaks", "destructor_clones_peer", "doubly_linked", "group>128", "group>4096", "group>16", "tail>1000", "payload_without_drop_glue", "destructor_panics"];
 
 fn body(id: &str, c: &BigCase, tier: Tier) {
     let sh = shared();
@@ -208,6 +221,11 @@ fn body(id: &str, c: &BigCase, tier: Tier) {
     let clone_node = if kept.is_empty() { c.clone_at.map(|k| k as usize % total) } else { None };
     if let Some(i) = clone_node {
         unsafe { &*b.slot[i] }.clone_on_drop.set(true);
+    }
+    if clone_node.is_none() {
+        if let Some(k) = c.panic_at {
+            PANIC_NODE.store(k as usize % total, Ordering::Relaxed);
+        }
     }
     let kept_on = |i: usize, kept: &Vec<(usize, Rc<BNode>)>| kept.iter().filter(|(k, _)| *k == i).count();
     let mut l = 0u64;
@@ -238,6 +256,9 @@ fn body(id: &str, c: &BigCase, tier: Tier) {
     if total > 4096 {
         l |= 1 << L_GT4096;
     }
+    if clone_node.is_none() && c.panic_at.is_some() {
+        l |= 1 << L_PANIC;
+    }
     sh.labels = l;
     // C06 before anything is dropped
     for (i, h) in &kept {
@@ -252,9 +273,16 @@ fn body(id: &str, c: &BigCase, tier: Tier) {
     sh.op = 1;
     cactusref::__verif::reset();
     let h0 = *b.h0.take().unwrap();
-    if !drop_small_stack(h0) {
-        violate(View::LibPanic, "the drop panicked");
-    }
+    let expected_panic = |ok: bool| {
+        let fired = PANICKED.swap(0, Ordering::Relaxed);
+        if !ok && fired == 0 {
+            violate(View::LibPanic, "the drop panicked");
+        }
+        if ok && fired != 0 {
+            violate(View::PanicSafe, "a destructor panicked but the panic did not reach the caller of drop");
+        }
+    };
+    expected_panic(drop_small_stack(h0));
     if clone_node.is_some() && kept.is_empty() {
         // a member's destructor cloned a handle to a peer of its dying group and survived
         if sh.after_abort == 1 {
@@ -306,9 +334,7 @@ fn body(id: &str, c: &BigCase, tier: Tier) {
                         violate(View::Weak, "Weak::upgrade returned a handle to a different object");
                     }
                     // dropping the upgraded handle runs a trace over the whole group
-                    if !drop_small_stack(h) {
-                        violate(View::LibPanic, "the drop panicked");
-                    }
+                    expected_panic(drop_small_stack(h));
                     if DESTROYED.load(Ordering::Relaxed) != 0 {
                         violate(View::Premature, &format!("dropping an upgraded handle to object {} destroyed objects of a group that is still held", i));
                     }
@@ -325,9 +351,7 @@ fn body(id: &str, c: &BigCase, tier: Tier) {
             sh.op = 2 + step as u32;
             cactusref::__verif::reset();
             let h = handles[*idx].take().unwrap();
-            if !drop_small_stack(h) {
-                violate(View::LibPanic, "the drop panicked");
-            }
+            expected_panic(drop_small_stack(h));
             let d = DESTROYED.load(Ordering::Relaxed);
             if step + 1 < k && d != 0 {
                 violate(View::Premature, &format!("group of {}: {} objects destroyed while {} outside handle(s) remain", total, d, k - step - 1));
@@ -554,6 +578,11 @@ pub struct BigKind;
 impl Kind for BigKind {
     type Case = BigCase;
     fn strategy(id: &str, _tier: Tier, _variant: u64) -> BoxedStrategy<BigCase> {
+        let panic_pct: u32 = match id {
+            "C03" | "C11" => 40,
+            "C02" => 20,
+            _ => 0,
+        };
         let nodrop_pct: u32 = match id {
             "C04" | "C02" => 60,
             "C16" => 0,
@@ -585,6 +614,7 @@ impl Kind for BigKind {
                 weaks,
                 clone_at: if cp < clone_pct { Some(cn) } else { None },
                 order,
+                panic_at: if (cn >> 8) % 100 < panic_pct { Some(cn >> 16) } else { None },
                 nodrop: (order >> 8) as u32 % 100 < nodrop_pct,
             })
             .boxed()
